@@ -39,14 +39,14 @@ class C05(Prop):
         "cases = one failing step with a generated policy: stop tree over stop_after_attempt(n in -1..8), stop_after_delay, "
         "stop_before_delay, |, &; optional retry-predicate tree over exception type and message; wait_fixed(w); the body sleeps s "
         "virtual seconds and raises on the first k attempts (or always); run on two clock configurations of the runtime adapter "
-        "(BasicRuntime default, epoch get_now). Non-trivial = >=2 executions and a time-based stop condition in the policy."
+        "(BasicRuntime default, epoch get_now). Non-trivial = >=2 executions of one event and (a time-based stop condition in the policy or a retry that had to wait for a slot)."
     )
     assumptions = [
         "reference = simulation of the documented semantics on the virtual timeline (true elapsed = virtual time since the first attempt started); tolerance 1e-6 s",
         "always-failing cases are bounded by or-ing stop_after_attempt(8) into the generated stop tree",
         "wait strategy restricted to wait_fixed so that C06's indexing question cannot influence this check",
     ]
-    budgets = {"quick": 600, "thorough": 4000}
+    budgets = {"quick": 2000, "thorough": 8000}
     wall = {"quick": 70.0, "thorough": 900.0}
 
     def setup(self):
@@ -64,6 +64,9 @@ class C05(Prop):
                 "k": st.one_of(st.none(), st.integers(0, 5)),
                 "exc": st.sampled_from(["ValueError", "KeyError", "RuntimeError"]),
                 "clock": st.sampled_from(["mono", "epoch"]),
+                "m": st.sampled_from([1, 1, 2, 3]),
+                "workers": st.sampled_from([1, 1, 2]),
+                "ties": st.lists(st.integers(0, 3), max_size=4),
             }
         )
 
@@ -105,81 +108,118 @@ class C05(Prop):
                 return out, "runaway"
 
     def run_case(self, case):
+        from ..boot import Runaway
+        from .c07 import EXC_TYPES
+
         case = json.loads(json.dumps(case))
         r = CaseResult()
         policy, stop_tree = self.build_policy(case)
+        m, workers = case.get("m", 1), case.get("workers", 1)
         spec = {
             "steps": [
-                {
-                    "name": "a",
-                    "accepts": ["GStart"],
-                    "workers": 1,
-                    "retry": {"custom": True},
-                    "acts": {"GStart": [["sleep", case["s"]], ["fail", case["k"], case["exc"]], ["ret", "GStop"]]},
-                }
+                {"name": "a", "accepts": ["GStart"], "workers": 1, "retry": None, "acts": {"GStart": [["send", "E0", m, None], ["ret", None]]}},
+                {"name": "b", "accepts": ["E0"], "workers": workers, "retry": {"custom": True},
+                 "acts": {"E0": [["sleep", case["s"]], ["fail", case["k"], case["exc"]], ["ret", None]]}},
+                {"name": "fin", "accepts": ["Fin"], "workers": 1, "retry": None, "acts": {"Fin": [["ret", "GStop"]]}},
             ],
             "timeout": None,
-            "ext": [],
-            "ties": [],
+            "ext": [[4000.0, "send", "Fin", None, {}]],
+            "ties": case.get("ties", []),
         }
-        from ..boot import Runaway
-
+        clock = case["clock"]
         try:
             rec = genwf.run_case_program(
-                spec, probe=False, runtime=genwf.make_runtime(case["clock"]), retry_builder=lambda s: policy if s else None, horizon=5000.0
+                spec, probe=False, runtime=genwf.make_runtime(clock), retry_builder=lambda s_: policy if s_ else None, horizon=5000.0
             )
         except Runaway:
             # every generated policy stops after at most 8 attempts: unbounded re-execution is a budget violation
-            r.v("unbounded_executions", clock=case["clock"])
+            r.v("unbounded_executions", clock=clock)
             r.nontrivial = True
             return r
-        ref, why = self.reference(case, stop_tree)
-        r.classes += ["clock_" + case["clock"], "ref_" + why]
-        invs = [i for i in rec.inv if i["step"] == "a"]
-        clock = case["clock"]
-        if len(invs) != len(ref):
-            r.v("execution_count", got=len(invs), want=len(ref), why=why, clock=clock, time_based=self._time_based(stop_tree))
-        for j, inv in enumerate(invs[: len(ref)]):
-            ri = inv["ri"]
-            if ri.retry_number != j:
-                r.v("retry_number", attempt=j, got=ri.retry_number, clock=clock)
-            if abs(inv["t_in"] - ref[j][0]) > EPS and len(invs) == len(ref):
-                r.v("attempt_start_time", attempt=j, got=inv["t_in"], want=ref[j][0], clock=clock)
-            want_el = inv["t_in"] - invs[0]["t_in"]
-            if abs(ri.elapsed_seconds - want_el) > EPS:
-                r.v("retry_info_elapsed", attempt=j, got=min(ri.elapsed_seconds, 1e12), want=want_el, clock=clock)
-            if j == 0:
-                if ri.last_exception is not None or ri.last_failed_at is not None:
-                    r.v("retry_info_first_attempt_not_clean", clock=clock)
-            else:
-                prev = invs[j - 1].get("exc")
-                if ri.last_exception is None or type(ri.last_exception) is not type(prev) or str(ri.last_exception) != str(prev):
-                    r.v("retry_info_last_exception", attempt=j, clock=clock)
-                if ri.last_failed_at is None or abs(ri.last_failed_at.timestamp() - (1_700_000_000.0 + invs[j - 1]["t_out"])) > 1e-3:
-                    r.v("retry_info_last_failed_at", attempt=j, clock=clock)
+        r.classes += ["clock_" + clock, f"events_{m}", f"workers_{workers}"]
+        w = float(case["w"])
+        by_uid: dict[int, list] = {}
+        for inv in rec.inv:
+            if inv["step"] == "b":
+                by_uid.setdefault(inv["uid"], []).append(inv)
+        ended_at = rec.t_result if rec.t_result is not None else float("inf")
+        expected_fail = []  # (time, uid) of reference-decided exhaustion
+        contended = False
+        for uid, invs in by_uid.items():
+            T0 = invs[0]["t_in"]
+            for j, inv in enumerate(invs):
+                ri = inv["ri"]
+                if ri.retry_number != j:
+                    r.v("retry_number", attempt=j, got=ri.retry_number, clock=clock)
+                want_el = inv["t_in"] - T0
+                if abs(ri.elapsed_seconds - want_el) > EPS:
+                    r.v("retry_info_elapsed", attempt=j, got=min(ri.elapsed_seconds, 1e12), want=want_el, clock=clock)
+                if j == 0:
+                    if ri.last_exception is not None or ri.last_failed_at is not None:
+                        r.v("retry_info_first_attempt_not_clean", clock=clock)
+                else:
+                    prev = invs[j - 1].get("exc")
+                    if ri.last_exception is None or type(ri.last_exception) is not type(prev) or str(ri.last_exception) != str(prev):
+                        r.v("retry_info_last_exception", attempt=j, got=repr(ri.last_exception)[:40], clock=clock, queued=inv["t_in"] > invs[j - 1]["t_out"] + w + EPS)
+                    if ri.last_failed_at is None or abs(ri.last_failed_at.timestamp() - (1_700_000_000.0 + invs[j - 1]["t_out"])) > 1e-3:
+                        r.v("retry_info_last_failed_at", attempt=j, clock=clock)
+                    gap = inv["t_in"] - invs[j - 1]["t_out"]
+                    if gap < w - EPS:
+                        r.v("retry_before_wait_elapsed", attempt=j, gap=gap, wait=w, clock=clock)
+                    if gap > w + EPS:
+                        contended = True
+                        if m == 1:
+                            r.v("attempt_start_time", attempt=j, gap=gap, wait=w, clock=clock)
+                # reference decision after this attempt
+                if inv["exit"] != "raised":
+                    if inv["exit"] == "returned" and j + 1 < len(invs):
+                        r.v("executed_again_after_success", uid=uid, clock=clock)
+                    continue
+                failures = j + 1
+                exc = inv["exc"]
+                elapsed = inv["t_out"] - T0
+                retryable = case["retry"] is None or self.h.expect_retry(case["retry"], exc)
+                stop = self.h.expect_stop(stop_tree, failures, elapsed, w)
+                should_retry = retryable and not stop
+                has_next = j + 1 < len(invs)
+                if should_retry and not has_next and inv["t_out"] + w < ended_at - EPS and rec.outcome["kind"] != "failed":
+                    r.v("missing_retry", failures=failures, elapsed=elapsed, clock=clock, time_based=self._time_based(stop_tree))
+                if should_retry and not has_next and rec.outcome["kind"] == "failed" and rec.outcome["exc"] is exc:
+                    r.v("stopped_with_budget_left", failures=failures, elapsed=elapsed, clock=clock, time_based=self._time_based(stop_tree))
+                if not should_retry:
+                    expected_fail.append((inv["t_out"], uid, inv))
+                    if has_next:
+                        r.v("retried_beyond_budget", failures=failures, elapsed=elapsed, retryable=retryable, clock=clock)
         # terminal report
-        if rec.outcome["kind"] == "failed":
-            fe = [e for _, e in rec.stream if type(e).__name__ == "WorkflowFailedEvent"]
-            if len(fe) != 1:
-                r.v("failed_event_count", got=len(fe))
+        out = rec.outcome
+        if expected_fail:
+            if out["kind"] != "failed":
+                r.v("succeeded_but_reference_fails", clock=clock)
             else:
-                true_elapsed = invs[-1]["t_out"] - invs[0]["t_in"]
-                if fe[0].attempts != len(invs):
-                    r.v("failed_event_attempts", got=fe[0].attempts, want=len(invs), clock=clock)
-                if abs(fe[0].elapsed_seconds - true_elapsed) > EPS:
-                    r.v("failed_event_elapsed", got=min(fe[0].elapsed_seconds, 1e12), want=true_elapsed, clock=clock)
-            if why == "success":
-                r.v("failed_but_reference_succeeds", clock=clock)
-        elif rec.outcome["kind"] == "result":
-            if why != "success":
-                r.v("succeeded_but_reference_fails", why=why, clock=clock)
-        else:
-            r.v("unexpected_outcome", outcome=rec.outcome["kind"], clock=clock)
+                origin = [x for x in expected_fail if x[2].get("exc") is out["exc"]]
+                fe = [e for _, e in rec.stream if type(e).__name__ == "WorkflowFailedEvent"]
+                if len(fe) != 1:
+                    r.v("failed_event_count", got=len(fe))
+                elif origin:
+                    _, uid, inv = origin[0]
+                    invs = by_uid[uid]
+                    true_elapsed = inv["t_out"] - invs[0]["t_in"]
+                    if fe[0].attempts != len(invs):
+                        r.v("failed_event_attempts", got=fe[0].attempts, want=len(invs), clock=clock)
+                    if abs(fe[0].elapsed_seconds - true_elapsed) > EPS:
+                        r.v("failed_event_elapsed", got=min(fe[0].elapsed_seconds, 1e12), want=true_elapsed, clock=clock)
+                else:
+                    r.v("failed_with_unexpected_exception", exc=repr(out["exc"])[:60], clock=clock)
+        elif out["kind"] != "result":
+            r.v("failed_but_reference_succeeds", outcome=out["kind"], clock=clock)
         tb = self._time_based(stop_tree)
         if tb:
             r.classes.append("time_based_stop")
-        r.nontrivial = len(ref) >= 2 and tb
-        r.sample = {"case": case, "executions": len(invs), "reference": why}
+        if contended:
+            r.classes.append("retry_waited_for_a_slot")
+        nexec = max((len(v) for v in by_uid.values()), default=0)
+        r.nontrivial = nexec >= 2 and (tb or contended)
+        r.sample = {"case": case, "executions_per_event": [len(v) for v in by_uid.values()], "outcome": out["kind"]}
         return r
 
     def _time_based(self, node):
